@@ -398,8 +398,6 @@ def check(case, ctx):
         if got != exp:
             ctx.fail('result-depends-on-history', exp[:300], got[:300], **where)
             return
-        if st == 'err' and not isinstance(r, ValueError) and not isinstance(r, (TypeError, KeyError, AttributeError)):
-            ctx.fail('unexpected-exception', 'value', r, **where)
         last = r if st == 'ok' else None
     # aliasing: editing the last result must not reach the arguments
     if last is not None:
